@@ -71,6 +71,18 @@ def compileRuleM (r : RawRuleM) : List RuleM :=
 def addRulesM (rules : List RuleM) (raws : List RawRuleM) : List RuleM :=
   raws.foldl (fun acc r => acc ++ compileRuleM r) rules
 
+
+/-- `paths/configparser.py TOMLParser.processFilters` on the `[[filters]]` tables of a TOML file, in file order:
+    `paths = data["path"]; if isinstance(paths, str): paths = [paths]`, `rule = {"path": paths, "action":
+    data["action"]}`, `if "key" in data: rule["key"] = data["key"]`, `ctx.pc.add_rules(rule)` — one `add_rules` call
+    per table, the path always handed over as a list -/
+def processFiltersM (tables : List RawRuleM) : List RuleM :=
+  tables.foldl (fun rules d =>
+    let paths := match d.path with
+      | .one p => [p]
+      | .many ps => ps
+    addRulesM rules [⟨.many paths, d.key, d.action⟩]) []
+
 /-! ### the stored configuration: `Matcher` objects -/
 
 structure RuleS where
